@@ -11,6 +11,18 @@ afterwards), all VIOLATION with a shrunk replay, quick tier, seed 0:
   M10 KeywordIndex.apply({'query': [..]}) defaults to operator 'or'
   M12 docids() cached on (indexed_count, not_indexed_count)
 and the seeded change C13_D (posting promoted to a TreeSet at tree_threshold, the triggering docid is lost).
+
+Builder wt_strong4: mode big (1 case in 160; measured 80 of 12000 = 0.7%): 520-2000 documents, counts() over
+500+ docids as list / tuple / IF Set / IF TreeSet (own and other family) / generator / Python set / dict keys /
+query result, the counted documents use only some of the facets while others are used by documents outside (96
+counts calls over >= 500 ids with a live facet that has no member among them); rejected index calls (6% of the
+history steps: Persistent / Broken value, raising attribute; measured per 12000 cases: 8371 on a docid with
+facets, 4444 facet-less, 1078 withdrawn, 7948 unknown) followed by an observation.
+  seeded C13_E  counts() bulk path for IF sets of >= 500 members reports zero counts   MISSED before, now caught
+  seeded C13_F  index_doc unindexes before discriminate()                              MISSED before, now caught
+  M13a counts(): sized collections (list/tuple/set) of >= 512 docids counted facet by facet, zero counts kept  caught
+  M13b index_doc removes the docid from _not_indexed before discriminate()                                      caught
+  M13c counts() looks at the first 1024 docids only                                                             caught
 """
 from lib.core import exc_name, idset
 
@@ -35,7 +47,11 @@ RULE = ("facet sets of 1-7 names from an adversarial pool (a, ab, abc, b, bc, c,
         "the family's range, any order) so that the first facet's posting holds 65-400 docids, 60% of them under "
         "the class default tree_threshold (others 64/100/32/200/5), 12% with 121-199 withdrawn documents, 45% "
         "with a drain of that posting back to 58-66 docids (or nothing), optimize(), then a small history on a few "
-        "ids and counts() over all ids. "
+        "ids and counts() over all ids. big mode (1 case in 160): 520-2000 documents, counts() over 500+ docids "
+        "given as list/tuple/IF Set/IF TreeSet (either family)/generator/set/dict keys/query result where some "
+        "configured facets are used only by documents outside the counted collection. 6% of the history steps are "
+        "index/reindex calls that fail in discriminate() (Persistent, Broken, raising attribute) on known "
+        "(with facets / facet-less / withdrawn) and unknown docids, followed by obs / counts / Eq. "
         "non-trivial = some counts answer is non-empty and the answers contain three different values")
 LEVEL_TEXT = ("Lean 4 proof: for every configured facet set and every history the model of FacetIndex (with its "
               "posting representation erased) represents the table docid -> {configured facets that are a "
@@ -157,7 +173,7 @@ def gen_counts_of(rng, facets):
     return ["countsd", rng.choice(["docids", "docids", "indexed", "notindexed"]), "|"] + [enc(o) for o in om]
 
 
-def small_ops(rng, ids, facets, cmds, nops, thrs=THRS, allids=None):
+def small_ops(rng, ids, facets, cmds, nops, thrs=THRS, allids=None, rejects=False):
     last = {}
     for _ in range(nops):
         r = rng.random()
@@ -176,7 +192,7 @@ def small_ops(rng, ids, facets, cmds, nops, thrs=THRS, allids=None):
             cmds.append(["setthr", rng.choice(thrs)])
         elif r < 0.37 and d in last:
             cmds.append([rng.choice(["index", "reindex"]), d] + last[d])             # identical content again
-        elif r < 0.43:
+        elif rejects and r < 0.43:
             # a call that fails in discriminate() (Persistent / Broken value: ValueError; the discriminator or the
             # attribute itself raises): the index is what it was before, whatever it knew about this docid
             if last and rng.random() < 0.7:
@@ -224,12 +240,12 @@ def tail(rng, ids, facets, cmds):
 
 def gen_history(rng, tier, ids, facets, maxlen):
     cmds = []
-    small_ops(rng, ids, facets, cmds, rng.randrange(3, maxlen))
+    small_ops(rng, ids, facets, cmds, rng.randrange(3, maxlen), rejects=True)
     tail(rng, ids, facets, cmds)
     return cmds
 
 
-def gen_bulk(rng, tier, fam, facets):
+def gen_bulk(rng, tier, fam, facets, rejects=False):
     """size-dependent behaviour: 70-400 documents listed under 1-4 facets, the largest posting holds at least 65
     docids (tree_threshold = 64 by default, > 120 ints per set bucket), optionally > 120 withdrawn documents; then
     a `drain` that brings that posting back to 58..66 docids, an ordinary small history (optimize, threshold
@@ -282,7 +298,7 @@ def gen_bulk(rng, tier, fam, facets):
         cmds.append(via(rng, gen_query(rng, facets, "eq")))
     fresh = [ids[-1] + 1000 + i for i in range(3)] if ids[-1] + 1003 < top else [ids[0] - 1000 - i for i in range(3)]
     some = sorted(set([ids[0], ids[-1]] + rng.sample(ids, 8) + fresh))
-    small_ops(rng, some, facets, cmds, rng.randrange(5, 30), thrs=BULK_THRS, allids=allids)
+    small_ops(rng, some, facets, cmds, rng.randrange(5, 30), thrs=BULK_THRS, allids=allids, rejects=rejects)
     tail(rng, allids if rng.random() < 0.6 else some, facets, cmds)
     return cmds
 
@@ -347,7 +363,7 @@ def gen_big(rng, tier, fam, facets):
     probes()
     # a small history on a few ids (also: the only users of a facet go away), then the same questions again
     some = rng.sample(sub, 5) + rng.sample(sorted(set(ids) - inside), min(n - m, 5))
-    small_ops(rng, some, facets, cmds, rng.randrange(3, 12), thrs=BULK_THRS)
+    small_ops(rng, some, facets, cmds, rng.randrange(3, 12), thrs=BULK_THRS, rejects=True)
     probes()
     cmds.append(["obs"])
     return cmds
@@ -375,7 +391,7 @@ def gen(rng, tier, idx):
         # the class default tree_threshold (no instance attribute) in 60% of the bulk cases
         if rng.random() >= 0.6:
             cfg.append(["cfg", "thr", rng.choice(BULK_THRS)])
-        return {"session": "facet", "cfg": cfg + [["cfg", "mode", "bulk"]], "cmds": gen_bulk(rng, tier, fam, facets)}
+        return {"session": "facet", "cfg": cfg + [["cfg", "mode", "bulk"]], "cmds": gen_bulk(rng, tier, fam, facets, rejects=True)}
     maxlen = 40 if tier == "quick" or rng.random() < 0.93 else 200
     if rng.random() < 0.85:
         cfg.append(["cfg", "thr", rng.choice(THRS)])
